@@ -243,6 +243,31 @@ func c20TScenarios() []tScenario {
 				{"members", func() string { return fmt.Sprint(len(n.M.Members()) <= 2, n.M.NumMembers() <= 2) }},
 				gossipThread(n, 4)}, lifecycleFinish(n, false)
 		}, Horizon: 12 * time.Second},
+		{Name: "late-confirmation||members||leave||gossip", Build: func(b *bubble) ([]tThread, func(map[string]string) (string, string, string)) {
+			// five members, a suspicion of p that is 15 s old, and now a second accuser: with one confirmation
+			// the deadline (about 11.4 s of at most 24 s) is already over, so the suspicion ends on the spot -
+			// inside the handler that holds the node lock
+			n := tNode(b, func(c *ml.Config) { c.SuspicionMult = 4 })
+			for i, q := range []string{"q1", "q2", "q3"} {
+				n.M.VAliveNode(&ml.VAlive{Incarnation: 1, Node: q, Addr: ip4(byte(30 + i)), Port: 7946, Vsn: defaultVsn}, nil, false)
+			}
+			advance(time.Microsecond)
+			n.M.VSuspectNode(&ml.VSuspect{Incarnation: 1, Node: "p", From: "q1"})
+			time.Sleep(15 * time.Second)
+			fin := lifecycleFinish(n, false)
+			return []tThread{
+					{"confirm", func() string { n.M.VSuspectNode(&ml.VSuspect{Incarnation: 1, Node: "p", From: "q2"}); return "ok" }},
+					{"members", func() string { return fmt.Sprint(len(n.M.Members()) >= 4) }},
+					leaveT(n, "leave1"), gossipThread(n, 6)}, func(res map[string]string) (string, string, string) {
+					if strings.HasPrefix(res["leave1"], "LATE") {
+						return "leave-blocked-past-timeout", res["leave1"], ""
+					}
+					if listed(n, "p") {
+						return "late-confirmation-did-not-end-suspicion", recStr(findRec(n.M.VSnapshot(), "p")), ""
+					}
+					return fin(res)
+				}
+		}, Horizon: 12 * time.Second},
 		{Name: "leave||update||accusation||gossip", Build: func(b *bubble) ([]tThread, func(map[string]string) (string, string, string)) {
 			n := tNode(b)
 			own := n.M.VSnapshot().Incarnation
